@@ -60,6 +60,13 @@ def main(path):
     def log(obj):
         os.write(out_fd, (json.dumps(obj) + '\n').encode())
     log({'model': model, 'key': key.hex() if key else None})
+    import hashlib
+    pre_state = {}
+    for dp, _, fns in os.walk(repo_dir):
+        for fn in fns:
+            p_ = os.path.join(dp, fn)
+            pre_state[os.path.relpath(p_, repo_dir)] = hashlib.sha256(open(p_, 'rb').read()).hexdigest()
+    log({'pre_state': pre_state})
 
     # ---- crash plan
     plan = {'at': job['crash_at'], 'n': 0, 'partial': job['partial']}
